@@ -151,6 +151,32 @@ func Lookup(name string) interface{} { return stubs[name] }
 // Merge asks the executor to join the returning paths of the named effect-free function.
 func Merge(name string) {}
 
+// TempDir returns a fresh scratch directory (natively a real one, removed after the run; in
+// the executor the root of a per-path set of existing file names).
+func TempDir() string {
+	d, err := os.MkdirTemp("", "verifrt")
+	if err != nil {
+		panic(err)
+	}
+	tempDirs = append(tempDirs, d)
+	return d
+}
+
+// TouchFile creates the (empty) file; FileExists reports whether it exists. Together with
+// os.Remove they are the whole file-system vocabulary of the executor.
+func TouchFile(path string) {
+	if err := os.WriteFile(path, nil, 0644); err != nil {
+		panic(err)
+	}
+}
+
+func FileExists(path string) bool {
+	_, err := os.Stat(path)
+	return err == nil
+}
+
+var tempDirs []string
+
 // Symbolic reports whether the harness runs in the symbolic executor.
 func Symbolic() bool { return false }
 
@@ -187,6 +213,10 @@ func runOne(c Case, h func()) (o Outcome) {
 	stubs = map[string]interface{}{}
 	o.ID = c.ID
 	defer func() {
+		for _, d := range tempDirs {
+			os.RemoveAll(d)
+		}
+		tempDirs = nil
 		o.Trace = trace
 		if r := recover(); r != nil {
 			switch x := r.(type) {
